@@ -16,6 +16,16 @@ fn scenario(ctx: &Ctx, i: u64) -> (Logical, bool) {
     let mut rng = ctx.rng("c17", i);
     let codec = R::CODECS[(i % 4) as usize];
     let asyncm = (i / 4) % 2 == 1;
+    if i % 96 == 41 {
+        // more than 16 MiB of tile data (writers that slice large sections)
+        let mut l = gen::gen_logical(&mut rng, SizeClass::One, codec);
+        l.tiles.clear();
+        for k in 0..3u64 {
+            l.tiles.insert(100 + k, std::rc::Rc::new(rng.bytes(7 * (1 << 20) + 13 * k as usize + 5)));
+        }
+        l.class = String::from("tile data > 2^24 bytes");
+        return (l, asyncm);
+    }
     let l = match (i / 8) % 6 {
         0 => gen::gen_logical(&mut rng, SizeClass::Empty, codec),
         1 => gen::gen_logical(&mut rng, SizeClass::One, codec),
